@@ -18,6 +18,21 @@ pub(crate) fn mk_core(bounds: Vec<f64>) -> HistogramCore {
     }
 }
 
+/// A local histogram in an arbitrary (hand-made) state.  Built with `new` + field assignment so
+/// that it still compiles when the struct gains a field; but a changed layout means the
+/// representation (and its invariant) changed, so harnesses over hand-made states are then made
+/// vacuous (`assume(false)`), which the driver reports as UNDECIDED through their `cover!`.
+pub(crate) fn mk_local(h: &Histogram, counts: Vec<u64>, count: u64, sum: f64) -> LocalHistogramCore {
+    if core::mem::size_of::<LocalHistogramCore>() != 48 {
+        kani::assume(false);
+    }
+    let mut l = LocalHistogramCore::new(h.clone());
+    l.counts = counts;
+    l.count = count;
+    l.sum = sum;
+    l
+}
+
 /// spec: accepted configuration = no NaN, strictly increasing
 pub(crate) fn spec_strictly_increasing(b: &[f64]) -> bool {
     let mut i = 0;
@@ -248,7 +263,7 @@ fn local_observe_obligation<const B: usize>() {
         kani::assume(pre[i] < u64::MAX);
         i += 1;
     }
-    let mut l = LocalHistogramCore { histogram: h.clone(), counts: pre.to_vec(), count: pre_cnt, sum: pre_sum };
+    let mut l = mk_local(&h, pre.to_vec(), pre_cnt, pre_sum);
     let v: f64 = kani::any();
     l.observe(v);
     let ff = spec_first_fit(&bounds, v);
@@ -265,6 +280,7 @@ fn local_observe_obligation<const B: usize>() {
     assert!(feq(l.sum, pre_sum + v), "C08.local_observe: sum");
     // nothing reaches the shared histogram before flush
     assert!(h.core.sample_count() == 0, "C08.local_observe: shared histogram touched before flush");
+    kani::cover!(true);
     core::mem::forget(l);
 }
 
